@@ -515,6 +515,30 @@ func wireAnte(p *Prog, r *Report, clause string) {
 			last = i
 		}
 	}
+	// signature verification uses the tx config's own sign-mode handler (no wrapper that could substitute the signed bytes)
+	okSMH := false
+	if pk := p.All[Rel("app")]; pk != nil {
+		for _, f := range pk.Syntax {
+			ast.Inspect(f, func(nd ast.Node) bool {
+				c, ok := nd.(*ast.CallExpr)
+				if !ok || objFull(calleeObj(pk.TypesInfo, c)) != "sdk/x/auth/ante.NewSigVerificationDecorator" || len(c.Args) != 2 {
+					return true
+				}
+				if inner, ok := c.Args[1].(*ast.CallExpr); ok && len(inner.Args) == 0 {
+					if sel, ok := inner.Fun.(*ast.SelectorExpr); ok && sel.Sel.Name == "SignModeHandler" {
+						if id, ok := sel.X.(*ast.Ident); ok {
+							if _, isParam := pk.TypesInfo.Uses[id].(*types.Var); isParam {
+								okSMH = true
+							}
+						}
+					}
+				}
+				return true
+			})
+		}
+	}
+	r.Check(okSMH, kp("WIRE", "ante#SigVerification-uses-TxConfig.SignModeHandler"), "signatures are verified over the bytes produced by the tx config's own sign-mode handler (not by a substitute/wrapper)", p.Pos(w.AntePos),
+		"NewSigVerificationDecorator(accountKeeper, txConfig.SignModeHandler())", "the sign-mode handler given to the signature verification decorator is not txConfig.SignModeHandler(): the bytes a signature is checked against may differ from the transaction's own sign bytes")
 	r.Floor("ante-decorators", len(w.Ante), 13)
 	// setAnteHandler is called from New; SetAnteHandler receives the chain
 	newFn := p.Func(Rel("app"), "New")
